@@ -23,9 +23,9 @@ for k in (1, 2):
     tests = glob.glob(demo + "/*_test.go")
     args = [sys.executable, V + "/lib/seedtest.py", prop, patch, "--checks", checks]
     if tests:
-        names = re.findall(r"func (Test\w+)\(", open(tests[0]).read())
+        names = [n for t in tests for n in re.findall(r"func (Test\w+)\(", open(t).read())]
         args += ["--demo-test", tests[0], "--demo-run", "^(" + "|".join(names) + ")$"]
-        if "VerifProbe" in open(tests[0]).read() or "go:build verif" in open(tests[0]).read():
+        if any("VerifProbe" in open(t).read() or "go:build verif" in open(t).read() for t in tests):
             args += ["--demo-tags", "verif"]
     else:
         note = notes[k - 1] if len(notes) >= k else {}
